@@ -507,13 +507,15 @@ pub fn run(mode: Mode, run: &Run) {
     let quick = run.quick();
     let mut tasks = special_ext_tasks();
     tasks.extend(ext_tasks(quick));
+    tasks.extend(gen_ext_tasks(quick));
+    tasks.extend(gen_spec_tasks(quick));
     if mode == Mode::C19 {
         tasks.extend(extra_c19_tasks());
     }
     run.set_extra("external_tasks_generated", json!(tasks.len()));
     run.set_extra("windows", json!([W, W + 3]));
     if mode == Mode::C02 {
-        run.set_rule("every (program-or-specification, program, user guide) triple of the task alphabet (20 programs incl. private predicates with clashing names, 10 specifications with directions, 6 user guides with integer/general/symbol placeholders and assumptions) that anthem accepts x 8 flag combinations x all placeholder values x ALL interpretations of public and private predicates: public projection of the interpretations refuting some forward (backward) problem vs the reference notion of behavioural difference (stable models with inputs of each side from the reference semantics, projected to the public vocabulary; specification formulas by direction); non-trivial = distinct non-empty expected refutation table");
+        run.set_rule("every (program-or-specification, program, user guide) triple of the task alphabet (20 programs incl. private predicates with clashing names, 10 specifications with directions, 6 user guides with integer/general/symbol placeholders and assumptions) plus all pairs (quick: a stride) of 67 grammar-generated programs (every head kind x 9 body conditions, private definitions used positively/negatively, facts, undefined private predicates, 0-ary outputs, second input predicate) with the matching user guide, that anthem accepts x 8 flag combinations x all placeholder values x ALL interpretations of public and private predicates: public projection of the interpretations refuting some forward (backward) problem vs the reference notion of behavioural difference (stable models with inputs of each side from the reference semantics, projected to the public vocabulary; specification formulas by direction); non-trivial = distinct non-empty expected refutation table");
         run.assume("projection form: an interpretation of the public predicates refutes a direction iff some extension to the private predicates refutes a problem; private predicates of the task alphabet are only derived for arguments of input atoms, so extents inside U exist");
         run.assume("specification assumptions annotated `backward` are dropped with a warning by design and are outside the alphabet");
     } else {
